@@ -11,7 +11,8 @@ EXPLANATION = ("Static structural clauses of C12 decided from MIR/HIR facts of t
                "block size, at all sibling sites including tools::set_location; (R2) the bytes exempt from the manifest "
                "digest are exactly the location+CRC of each PackInfo slot; (R3) set_location writes exactly one PackInfo "
                "block at pack_offset + global_offset and reassigns only pack_location; (R4) every write in set_location is "
-               "control-dependent on the uuid equality. The byte-level claim (file otherwise bit-identical) is not decided.")
+               "control-dependent on the uuid equality. The byte-level claim (file otherwise bit-identical) is not decided."
+               " (R6) the readers a container hands out for its packs are cut with in_memory = false (set_location relies on their global offset).")
 ASSUMPTIONS = ["seek/write semantics of std::fs::File", "rustc MIR construction and trait resolution (nightly in the image)",
                "reference table /verif/format/reference_v0_2.json for the v0.2 constants"]
 
